@@ -356,6 +356,57 @@ URL_PATHS = ("", "/", "/a/b")
 URL_QUERIES = ("", "?q=1", "?a=1&b=2")
 
 
+def q_app(header_kind, losses):
+    """WebSocketApp.run_forever with a reconnect interval: every connection attempt of the run sends its own complete request.  A
+    callable `header` option is evaluated for each connection (a token it returns is never re-sent stale); static options reappear
+    unchanged; every request has a fresh key."""
+    quiet_logging()
+    from .appcommon import AppRun, close_frame
+    calls = []
+
+    def header_fn():
+        calls.append(len(calls))
+        return ["X-Token: t%d" % (len(calls) - 1), "X-Static: s"]
+    if header_kind == "callable":
+        header = header_fn
+    elif header_kind == "list":
+        header = ["X-Token: t", "X-Static: s"]
+    else:
+        header = {"X-Token": "t", "X-Static": "s"}
+    from simnet import accept_for
+
+    def respond(server, head, key):
+        return ("HTTP/1.1 101 Switching Protocols\r\nUpgrade: websocket\r\nConnection: Upgrade\r\nSec-WebSocket-Protocol: chat\r\n"
+                "Sec-WebSocket-Accept: %s\r\n\r\n" % accept_for(key)).encode()
+    specs = [{"script": [(1, "EOF")], "respond": respond} for _ in range(losses)] + [{"script": [(1, close_frame(1000))], "respond": respond}]
+    r = AppRun(specs, step_budget=3000, app_kwargs=dict(header=header, cookie="c=1", subprotocols=["chat"]))
+    r.run(reconnect=2, origin="http://o.example")
+    reqs = [h for (_, _, h) in r.net.requests]
+    sx.require(len(reqs) == losses + 1, "one request per connection attempt", got=len(reqs), losses=losses)
+    keys, last_tok = [], -1
+    for i, head in enumerate(reqs):
+        lines = head.split("\r\n")
+        sx.require(lines[0] == "GET /x HTTP/1.1", "request line of every (re)connection", i=i, got=lines[0])
+        low = [l.lower() for l in lines[1:]]
+        for need in ("upgrade: websocket", "connection: upgrade", "host: h.example", "origin: http://o.example", "sec-websocket-version: 13",
+                     "sec-websocket-protocol: chat", "cookie: c=1", "x-static: s"):
+            sx.require(low.count(need) == 1, "every (re)connection request carries each configured header exactly once", i=i, header=need,
+                       got=low.count(need), header_kind=header_kind)
+        toks = [l.split(":", 1)[1].strip() for l in lines[1:] if l.lower().startswith("x-token:")]
+        sx.require(len(toks) == 1, "custom header present once on every (re)connection", i=i, got=len(toks), header_kind=header_kind)
+        if header_kind == "callable" and len(toks) == 1:
+            n = int(toks[0][1:])
+            sx.require(n > last_tok, "a callable header option is evaluated anew for every connection (no value of an earlier attempt is re-sent)",
+                       i=i, got=toks[0], previous=last_tok)
+            last_tok = n
+        elif len(toks) == 1:
+            sx.require(toks[0] == "t", "static custom header unchanged on every (re)connection", i=i, got=toks[0])
+        ks = [l.split(":", 1)[1].strip() for l in lines[1:] if l.lower().startswith("sec-websocket-key:")]
+        sx.require(len(ks) == 1 and ks[0] not in keys, "a fresh key on every (re)connection", i=i)
+        keys += ks
+    cover("app")
+
+
 def q_url(scheme):
     """URL -> request, end to end through create_connection on the fake network (strings concrete per path)"""
     quiet_logging()
@@ -470,6 +521,10 @@ def obligations(tier):
         Obligation("Q-reuse", q_reuse, [dict(header_kind=k) for k in ("list", "dict", "none")],
                    bounds="three successive requests from the same option objects (header list / dict / none, subprotocol list, cookie, jar cookie); host, "
                           "cookie and header value symbolic", must_cover=["reuse"], kernel=["_handshake._get_handshake_headers"]),
+        Obligation("Q-app", q_app, [dict(header_kind=h, losses=n) for h in ("callable", "list", "dict") for n in (0, 1, 2)],
+                   bounds="WebSocketApp.run_forever(reconnect=2) over 0..2 connection losses; header option a callable returning a changing token / a list / "
+                          "a dict; cookie, origin, subprotocol set", must_cover=["app"], step_budget=300000,
+                   kernel=["WebSocketApp.run_forever (setSock)", "WebSocket.connect", "_handshake._get_handshake_headers"]),
         Obligation("Q-redirect", q_redirect, [dict(scheme2=s, port2=p, path2=pa) for s in ("ws", "wss") for p in ("", ":9090") for pa in ("", "/new?y=2", "/")],
                    bounds="302 redirect from ws://a.example:8080/old?x=1 to {ws,wss}://b.example[:9090]{'', '/', '/new?y=2'}", must_cover=["redirect"],
                    step_budget=100000, kernel=["WebSocket.connect (redirect loop)", "_handshake.handshake", "_get_handshake_headers"]),
